@@ -153,7 +153,19 @@ func (k Keeper) GetSigningFee(ctx sdk.Context) (sdk.Coins, error) {
 
 	feePerSigner := k.GetParams(ctx).FeePerSigner
 
-	return feePerSigner.MulInt(math.NewIntFromUint64(group.Threshold)), nil
+	// the fee per signer is a governance parameter of any size; report an overflow of the total fee
+	// as an error instead of panicking (this is also called from end blockers).
+	threshold := math.NewIntFromUint64(group.Threshold)
+	totalFee := sdk.NewCoins()
+	for _, fc := range feePerSigner {
+		amount, err := fc.Amount.SafeMul(threshold)
+		if err != nil {
+			return sdk.Coins{}, fmt.Errorf("signing fee %s * %d: %w", fc, group.Threshold, err)
+		}
+		totalFee = totalFee.Add(sdk.NewCoin(fc.Denom, amount))
+	}
+
+	return totalFee, nil
 }
 
 // =====================================
